@@ -320,6 +320,10 @@ func doProvide(rt *RT, sc scopeAPI, op Op, out *OpOut) error {
 		if o.Export {
 			popts = append(popts, dig.Export(true))
 		}
+		if o.InfoNil {
+			// before the real one: the later option wins
+			popts = append(popts, dig.FillProvideInfo(nil))
+		}
 		if o.Info {
 			info = &dig.ProvideInfo{ID: sentinelInfoID}
 			if o.InfoSlot > 0 {
@@ -336,6 +340,12 @@ func doProvide(rt *RT, sc scopeAPI, op Op, out *OpOut) error {
 			popts = append(popts, dig.WithProviderCallback(func(ci dig.CallbackInfo) {
 				rt.Log = append(rt.Log, Event{Kind: EvCB, Op: rt.curOp, Fn: id, CBName: ci.Name, CBErr: ci.Error, CBRuntime: ci.Runtime})
 			}))
+		}
+		if o.CBNil && !o.CB {
+			popts = append(popts, dig.WithProviderCallback(nil))
+		}
+		if o.AsEmpty {
+			popts = append(popts, dig.As())
 		}
 		switch o.LocPC {
 		case "zero":
@@ -364,6 +374,9 @@ func doDecorate(rt *RT, sc scopeAPI, op Op, out *OpOut) error {
 	var dopts []dig.DecorateOption
 	var info *dig.DecorateInfo
 	if o := op.O; o != nil {
+		if o.InfoNil {
+			dopts = append(dopts, dig.FillDecorateInfo(nil))
+		}
 		if o.Info {
 			info = &dig.DecorateInfo{ID: sentinelInfoID}
 			if o.InfoSlot > 0 {
@@ -387,6 +400,9 @@ func doDecorate(rt *RT, sc scopeAPI, op Op, out *OpOut) error {
 		pre = infoSnap(int(info.ID), info.Inputs, info.Outputs)
 		out.InfoPreID = int(info.ID)
 	}
+	if o := op.O; o != nil && o.CBNil && !o.CB {
+		dopts = append(dopts, dig.WithDecoratorCallback(nil))
+	}
 	err := sc.Decorate(fn, dopts...)
 	if info != nil {
 		out.HasInfo = true
@@ -401,6 +417,9 @@ func doInvoke(rt *RT, sc scopeAPI, op Op, out *OpOut) error {
 	fn := fnValue(rt, op)
 	var iopts []dig.InvokeOption
 	var info *dig.InvokeInfo
+	if o := op.O; o != nil && o.InfoNil {
+		iopts = append(iopts, dig.FillInvokeInfo(nil))
+	}
 	if o := op.O; o != nil && o.Info {
 		info = &dig.InvokeInfo{}
 		if o.InfoSlot > 0 {
